@@ -8,7 +8,7 @@ from . import _sched as S
 from .C02 import WITNESSES
 
 PROP = "C04"
-GEN_REGIONS: List[str] = ["Sched", "Utils"]
+GEN_REGIONS: List[str] = ["Sched", "Utils", "SchedGlue"]
 THEOREMS = {
     "SpecKitV.Lemmas.SchedLtf": ["ltfStep_mono", "ltfStep_logspaced", "ltfStep_K"],
     "SpecKitV.Lemmas.Starts": ["nsegRaw_eq", "capK_le", "startsEven_safe", "startsAccum_safe", "overlapMean_eq_closed", "overlapMean_accum_eq_closed"],
@@ -22,8 +22,13 @@ THEOREMS = {
     "SpecKitV.Props.StartsGen": ["gen_ltf_starts_eq_model", "gen_ltf_starts_safe"],
     "SpecKitV.Props.PostGen": ["gen_vec_post_eq_model", "gen_new_post_eq_vec_post", "gen_post_starts_safe"],
     "SpecKitV.Props.Utils": ["gen_round_half_up_eq_model", "gen_round_half_up_eq_floor"],
+    "SpecKitV.Props.SchedGlueGen": ["SchedGlue.gen_require_args_eq", "SchedGlue.gen_ltf_post_eq", "SchedGlue.gen_vec_post_glue_eq", "SchedGlue.gen_new_post_glue_eq", "SchedGlue.gen_ltf_plan_eq_model", "SchedGlue.gen_vec_plan_eq_model", "SchedGlue.gen_new_plan_eq_model", "SchedGlue.gen_lpsd_forward", "SchedGlue.gen_lpsd_plan_eq_ltf", "SchedGlue.gen_lpsd_plan_eq_model", "SchedGlue.gen_plan_missing_key", "SchedGlue.gen_lpsd_missing_key", "SchedGlue.planDict_keys", "SchedGlue.gen_plan_wiring", "SchedGlue.planDict_overlap", "SchedGlue.gen_ltf_plan_props", "SchedGlue.gen_lpsd_plan_props", "SchedGlue.gen_new_plan_props", "SchedGlue.gen_vec_plan_props", "SchedGlue.gen_plan_overlap_key"],
 }
-CONTRACTS: List[str] = []
+CONTRACTS: List[str] = [
+    'Python dict with string keys = association list, most recent binding first (Py.Dict in Np/SchedGlue.lean): d[k]=v (last write wins), d[k], k in d, dict(d) copies, d.update(e), dict(k=v,...)',
+    'np.array(list) = NpSG.ofList: element i is list[i], length len(list); NpSG.toList / NpSG.toList2: the elements of a (nested) array in order (the view under which the output dictionary is stated)',
+    "NumPy basic slicing a[lo:hi] (step 1) = NpSG.slice with Python's normalisation of negative / out-of-range bounds; np.mean = left-to-right sum / length (Arr.mean)",
+]
 ASSUMPTIONS = ["sub-claim 'vectorised bin count within 10 % of the iterative one' is a comparison of two algorithms that no theorem here decides: "
                "it is probed on the real schedulers only (known finding D10 for Jdes < 10)",
                "monotonicity of L/K is proved for all four schedulers (Props/C04, C04Vec, C04New) over the reals; in floats a rounding tie can flip a single step, which is what the oracle's instability probe absorbs"]
@@ -34,7 +39,7 @@ D10 = {"N": 16861, "fs": 1.0, "olap": 0.9, "bmin": 1.5, "Lmin": 1, "Jdes": 1, "K
 
 def correspondence(ctx) -> C.Part:
     P = C.Part()
-    S.correspondence_plans(ctx, P, ctx.scale(80, 600))
+    cfgs = S.correspondence_plans(ctx, P, ctx.scale(80, 600))
     # the GENERATED Jdes search (translated from utils.find_Jdes_binary_search each run) driving the generated walks,
     # against the real search driving the real schedulers (iterative schedulers only: the vectorised one is too slow in the model
     # at Jdes ~ 5e5, where its lookup grid has 5e6 points)
@@ -59,6 +64,9 @@ def correspondence(ctx) -> C.Part:
         want = "none" if real is None else f"some {int(real)}"
         if g != want:
             P.disagreements.append({"op": "genjdes", "sched": which, "cfg": cfg, "target": target, "generated": g, "impl": want})
+    # region SchedGlue: the generated schedulers (unpacking, lpsd forwarding, statements after the walk, output dictionary) vs the real ones
+    # (last, so that the one integer it draws from ctx.rng does not shift the streams above)
+    S.correspondence_glue(ctx, P, cfgs)
     return P
 
 
